@@ -242,6 +242,8 @@ def plan(tier, seed):
     shards = [{"seed": seed * 1000 + k, "n": n, "depth": depth, "adversarial": k % 2 == 1} for k in range(16)]
     # one parameterised generic met twice in one annotation (nested first / bare first)
     shards += [{"seed": seed * 1000 + 70 + k, "n": n, "depth": 3, "repeated": True} for k in range(2)]
+    # TypedDicts extending a TypedDict of the other totality (required keys are decided per declaring class)
+    shards += [{"seed": seed * 1000 + 80 + k, "n": 120 if tier == "quick" else 1500, "depth": 2, "tdh": True} for k in range(2)]
     shards.append({"kind": "byteslike"})
     shards.append({"kind": "mapping-text"})
     shards.append({"kind": "late-definition"})
@@ -259,7 +261,7 @@ def run_shard(shard, col):
         check_mapping_text(col)
         return
     progs.drive_programs(col, seed=shard["seed"], n=shard["n"],
-                         spec_strategy=U.repeated_generic_specs() if shard.get("repeated") else U.root_specs(max_depth=shard["depth"], mods=3 if shard.get("adversarial") else 2, adversarial=bool(shard.get("adversarial"))), per_program=per_program)
+                         spec_strategy=U.repeated_generic_specs() if shard.get("repeated") else U.typeddict_hierarchy_specs() if shard.get("tdh") else U.root_specs(max_depth=shard["depth"], mods=3 if shard.get("adversarial") else 2, adversarial=bool(shard.get("adversarial"))), per_program=per_program)
 
 
 def replay(clause, case, col):
